@@ -269,6 +269,10 @@ def attach(tr):
             rep._vf_expected_client = order.client
             rep._vf_replaces = TR.okey(order)
             TR.okey(rep)
+            if order.simulated and getattr(order, "_vf_last_cancel_moved", None) is not None and getattr(order, "_simulated", True):
+                if not hasattr(TR, "replacements"):
+                    TR.replacements = []
+                TR.replacements.append({"seq": TR.nseq(), "tick": TR.tick, "orig": TR.okey(order), "new": TR.okey(rep), "size": size, "moved": order._vf_last_cancel_moved})
             return rep
 
         return create_order_replacement
@@ -538,7 +542,11 @@ def attach(tr):
     def mk_simresp(kind):
         def maker(orig):
             def f(self, *a, **kw):
+                rem0 = self.size_remaining if kind == "CANCEL" else None
                 resp = orig(self, *a, **kw)
+                if kind == "CANCEL":
+                    # what this cancel moved out of "remaining" (independent of what the response reports)
+                    self.order._vf_last_cancel_moved = round(rem0 - self.size_remaining, 6)
                 TR.sim_responses.append({"seq": TR.nseq(), "tick": TR.tick, "kind": kind, "o": TR.okey(self.order), "status": resp.status, "error": resp.error_code, "size_cancelled": getattr(resp, "size_cancelled", None)})
                 return resp
 
